@@ -85,7 +85,7 @@ fn folding_counter(_tree: &Tree, text: &str, is_default: bool, _t: &Table, acc: 
 /// differential P vs W (and D) on every token string both accept
 pub fn string_differential(rep: &mut Report, max_len: usize, tokens: Vec<&'static str>, name: &str) {
     let table = universal_table(PRIO_MAPS[0]);
-    let sw = Sweep { name, tokens, max_len, table: table.clone() };
+    let sw = Sweep { name, tokens, max_len, table: table.clone(), sep: " " };
     sweep_strings(&sw, rep, &|text, _idx, acc| {
         let p = run_pipe(Pipe::P, text);
         let w = run_pipe(Pipe::W, text);
